@@ -275,6 +275,10 @@ func checkC16(c C16Case) *Violation {
 		if list.Exit != 0 || gen.Exit != 0 {
 			return vio("attr-commands", "info attr list / gen attr fail: %s %s", list.Stderr, gen.Stderr)
 		}
+		// the command as it is typed, without -d: the embedded list is what it generates
+		if plain := crd("", "gen", "attr"); plain.Exit != 0 || !bytes.Equal(plain.Stdout, gen.Stdout) {
+			return vio("gen-attr-default", "`crd gen attr` (exit %d, %d bytes) is not the list `crd gen attr -d 20` prints (%d bytes), which is the embedded one", plain.Exit, len(plain.Stdout), len(gen.Stdout))
+		}
 		parse := func(b []byte) ([][2]string, error) {
 			var l []map[string]any
 			if err := yaml.Unmarshal(b, &l); err != nil {
